@@ -156,6 +156,107 @@ def values3(mod, name, quick):
     return out
 
 
+def build4(name="EQ"):
+    """shapes for representation independence: DEFAULTs of every inline kind, INTEGERs whose minimal form starts with 0x80 / 0x7f,
+    short BIT STRINGs, sets"""
+    m = Module(name, "AUTOMATIC")
+    dfl = lambda x: [Comp("b" + x, Type("BOOLEAN"), has_default=True, default=True), Comp("c" + x, Type("BOOLEAN"), has_default=True, default=False),
+                     Comp("i" + x, Type("INTEGER"), has_default=True, default=5),
+                     Comp("e" + x, Type("ENUMERATED", items=[("x" + x, 0), ("y" + x, 1)]), has_default=True, default=1),
+                     Comp("n" + x, Type("INTEGER"))]
+    m.add("E1", Type("SEQUENCE", comps=dfl("1")))
+    m.add("E2", Type("INTEGER"))
+    m.add("E3", Type("SET OF", elem=Type("INTEGER")))
+    m.add("E4", Type("BIT STRING"))
+    m.add("E5", Type("SET", comps=dfl("5")))
+    m.add("E6", Type("SEQUENCE OF", elem=Type("REF", ref="E2")))
+    m.add("E7", Type("SEQUENCE", comps=[Comp("bs7", Type("BIT STRING")), Comp("in7", Type("REF", ref="E2")), Comp("so7", Type("REF", ref="E3"))]))
+    for t in m.types.values():
+        _gen._set_module(t, m)
+    m.finalize()
+    return m
+
+
+EQ_INTS = [0, 1, -1, 127, 128, -128, -129, 255, 256, -256, 32767, 32768, -32768, -32769, -8388608, 8388607, -(1 << 31), (1 << 31) - 1, 1 << 31,
+           -(1 << 39), (1 << 39) - 1, -(1 << 47), -(1 << 55), -(1 << 63), (1 << 63) - 1]
+
+
+def values4(mod, name, rng, quick):
+    out = []
+    if name in ("E1", "E5"):
+        x = name[1]
+        out = [{"n" + x: 1}, {"b" + x: False, "n" + x: 2}, {"c" + x: True, "i" + x: 6, "n" + x: 3}, {"e" + x: 0, "n" + x: -128},
+               {"b" + x: False, "c" + x: True, "i" + x: -128, "e" + x: 0, "n" + x: -32768}]
+    elif name == "E2":
+        out = list(EQ_INTS)
+    elif name == "E3":
+        out = [[], [1], [3, 1, 2], [-128, 127, -129, 128, 0], [5, 5, 5], sorted(EQ_INTS[:12], reverse=True)]
+    elif name == "E4":
+        out = [(b"", 0)] + [(bytes([(0xff << (8 - n)) & 0xff]), n) for n in range(1, 8)] + [(b"\xa8", 5), (b"\xff\x80", 9), (b"\x00\x01", 16)]
+    elif name == "E6":
+        out = [[], EQ_INTS[5:9], EQ_INTS[-6:]]
+    elif name == "E7":
+        out = [{"bs7": (b"\xa8", 5), "in7": -128, "so7": [2, 1]}, {"bs7": (b"\x80", 1), "in7": -32768, "so7": [-128, -129, 0]}]
+    return out
+
+
+def build5(name="OPT"):
+    """shapes whose C representation depends on the code-generation options: alias chains of constrained strings, DEFAULT / OPTIONAL
+    extension additions (inline vs pointer members), CHOICE inside CHOICE, integers at the native/wide divide"""
+    m = Module(name, "AUTOMATIC")
+    from .model import Constraint as K
+    al = K([(("union", ("range", "a", "c"), ("range", "x", "z")), False, None)])
+    m.add("Code", Type("IA5String", alpha_c=al))
+    m.add("Label", Type("REF", ref="Code"))
+    m.add("Tag2", Type("REF", ref="Label"))
+    m.add("Sized", Type("REF", ref="Code", size_c=K.simple(1, 4)))
+    m.add("Box", Type("SEQUENCE", comps=[Comp("l", Type("REF", ref="Label")), Comp("c", Type("REF", ref="Code")), Comp("t", Type("REF", ref="Tag2"), optional=True)]))
+    m.add("X1", Type("SEQUENCE", comps=[Comp("xa", Type("INTEGER"))],
+               ext=[Comp("d0", Type("INTEGER"), has_default=True, default=0), Comp("d1", Type("BOOLEAN"), has_default=True, default=False),
+                    Comp("xo", Type("INTEGER"), optional=True)]))
+    m.add("X3", Type("SEQUENCE", comps=[Comp("za", Type("INTEGER", value_c=K.simple(0, 255)))],
+               ext=[Comp("zr", Type("INTEGER"), has_default=True, default=0), Comp("zn", Type("IA5String"), optional=True)]))
+    m.add("X2", Type("SEQUENCE", comps=[Comp("ya", Type("INTEGER"), has_default=True, default=0), Comp("yb", Type("BOOLEAN"), has_default=True, default=True),
+                                        Comp("yc", Type("INTEGER", value_c=K.simple(0, 255)), optional=True)]))
+    m.add("N1", Type("INTEGER", value_c=K([(("range", 0, MAX), False, None)])))
+    m.add("N2", Type("INTEGER", value_c=K.simple(-5, 5)))
+    m.add("N3", Type("INTEGER"))
+    m.add("R1", Type("REAL"))
+    m.add("Ch", Type("CHOICE", comps=[Comp("ca", Type("INTEGER")), Comp("cb", Type("CHOICE", comps=[Comp("cx", Type("BOOLEAN")), Comp("cy", Type("REF", ref="Code"))])),
+                                      Comp("cl", Type("SEQUENCE OF", elem=Type("REF", ref="N2")))]))
+    for t in m.types.values():
+        _gen._set_module(t, m)
+    m.finalize()
+    return m
+
+
+def values5(mod, name, rng, quick):
+    out = []
+    if name in ("Code", "Label", "Tag2"):
+        out = ["", "a", "abcxyz", "zzzza", "cxbya"]
+    elif name == "Sized":
+        out = ["a", "zz", "abcx"]
+    elif name == "Box":
+        out = [{"l": "ax", "c": "zc"}, {"l": "", "c": "b", "t": "xyz"}]
+    elif name == "X1":
+        out = [{"xa": 7}, {"xa": 7, "d0": 5}, {"xa": -1, "d1": True}, {"xa": 0, "xo": 9}, {"xa": 300, "d0": -1, "d1": True, "xo": -70000}]
+    elif name == "X3":
+        out = [{"za": 7}, {"za": 7, "zr": 2}, {"za": 0, "zn": "hi"}, {"za": 255, "zr": -1, "zn": ""}]
+    elif name == "X2":
+        out = [{}, {"ya": 3}, {"yb": False}, {"yc": 255}, {"ya": -128, "yb": False, "yc": 0}]
+    elif name == "N1":
+        out = [0, 1, 127, 128, 255, 256, 65535, 65536, (1 << 31) - 1, 1 << 31, (1 << 32) - 1, 1 << 32, (1 << 63) - 1]
+    elif name == "N2":
+        out = [-5, -1, 0, 5]
+    elif name == "N3":
+        out = [0, -1, 127, 128, -128, -129, (1 << 31) - 1, -(1 << 31), (1 << 63) - 1, -(1 << 63)]
+    elif name == "R1":
+        out = [0.0, 1.0, -2.5, 1e100, 0.1, 5e-324, float("inf")]
+    elif name == "Ch":
+        out = [("ca", 5), ("cb", ("cx", True)), ("cb", ("cy", "abz")), ("cl", [-5, 0, 5]), ("cl", [])]
+    return out
+
+
 LEN_16K = sorted(set(b + d for b in (16384, 32768, 49152, 65536) for d in range(-4, 3)))
 
 
